@@ -623,7 +623,7 @@ impl LogInnerManager {
                 let result = match mark {
                     LogWriteMark::Success => LogWriteResult::Success,
                     LogWriteMark::SuccessToEnd => {
-                        if last_index + 1 == list.len() {
+                        if last_index == list.len() {
                             LogWriteResult::SuccessToEnd(self.get_end_index(), self.last_term)
                         } else {
                             LogWriteResult::FailureBatch(
